@@ -187,15 +187,58 @@ def persistence(res, facts, entries):
     else:
         res.violate("C13.R5", b["id"], "payload depends on " + ",".join(sorted(reads - {"claims"})) if reads - {"claims"} else "payload does not read the claims",
                     "the payload must be a function of the builder's current claims only; fields read: %s" % sorted(reads), file=v.file(), line=b["line"])
-    # and iterates the map by shared reference (iter), all entries
-    N = M.Normalizer(facts, keep=[])
+    # and leaves the claims where they are: interpreted on a builder with two concrete claims, the map afterwards holds the same two
+    # entries on every path (iterator chains, loops, helper functions alike); the structural form (one self.claims.iter()) only when
+    # the interpreter cannot decide
+    sem = claims_kept(facts, b)
+    if sem is not None:
+        ok, why = sem
+        res.oblige(ok)
+        if ok:
+            res.inst("C13.R5", "build_payload_from_claims leaves self.claims as it found it (interpreted on a two-claim builder, every path)")
+        else:
+            res.violate("C13.R5", b["id"], "claims changed by building the payload", why, file=v.file(), line=b["line"])
+        return
     its = v.find_calls(r"HashMap::<K, V, S, A>::iter$|HashMap::<K, V, S>::iter$")
     ok = len(its) == 1
     res.oblige(ok)
     if ok:
         res.inst("C13.R5", "build_payload_from_claims iterates self.claims by shared reference")
     else:
-        res.violate("C13.R5", b["id"], "claims not iterated by reference", "expected exactly one self.claims.iter()", file=v.file(), line=b["line"])
+        res.violate("C13.R5", b["id"], "claims not iterated by reference", "expected exactly one self.claims.iter() (and the abstract interpreter could not decide what happens to the claims)", file=v.file(), line=b["line"])
+
+
+def claims_kept(facts, b):
+    """(ok, why) or None when undecided"""
+    from .. import models as MD
+    from .. import models_iter as MI
+    I = A.Interp(facts, MD.MODELS)
+    I.concrete_maps = True
+    # what the wrapping helpers make of the serialised copies is C14's subject: summarised here
+    I.fn_stubs = [(re.compile(r"::(wrap_claims|wrap_value)$"), lambda I_, st_, args_: A.Sym("wrapped"))]
+    st = A.State()
+    before = [("k1", "C1"), ("k2", "C2")]
+    me_v = A.Struct("crate::generic::builders::generic_builder::GenericBuilder", None, {
+        "version": A.UNIT, "purpose": A.UNIT, "claims": MI.mapv("claims", [(A.StrV(k), A.Sym(n)) for k, n in before]),
+        "footer": A.Sym("self.footer", attrs={"adt": "core::option::Option"}), "implicit_assertion": A.Sym("self.implicit_assertion", attrs={"adt": "core::option::Option"})})
+    me = st.new_cell(me_v)
+    outs = I.run(b, [A.Ptr(me)], st)
+    if not outs:
+        return None
+    bad = []
+    for o in outs:
+        if o.kind == "panic":
+            continue
+        if o.kind != "return" or o.state.unmodelled or any("undecided" in n for n in o.state.notes):
+            return None
+        cur = MD.deref(I, o.state, A.Ptr(me))
+        m = MD.deref(I, o.state, cur.fields.get("claims")) if isinstance(cur, A.Struct) else None
+        if not MI.is_map(m):
+            return None
+        got = sorted((str(MD.str_key(I, o.state, e.fields["0"])[1]), getattr(MD.deref(I, o.state, e.fields["1"]), "name", "?")) for e in MI._entries(m))
+        if got != sorted(before):
+            bad.append("after building the payload the builder's claims are %s instead of %s when [%s]" % (got, sorted(before), " & ".join(o.state.cond)[-160:]))
+    return (not bad, "; ".join(sorted(set(bad)))[:500])
 
 
 def payload_reads(facts):
